@@ -64,11 +64,11 @@ def known_match(known, prop, f, hist, ev):
     return None
 
 
-def run_batch(out, label, dictname, histories, spec="Trace_File", nshards=None, known=None):
+def run_batch(out, label, dictname, histories, spec="Trace_File", nshards=None, known=None, driver="drive"):
     """Drive + validate one batch; classify failures for out.prop."""
     if not histories:
         return
-    res = core.drive_and_validate(f"{out.prop}_{label}", dictname, histories, spec=spec, nshards=nshards)
+    res = core.drive_and_validate(f"{out.prop}_{label}", dictname, histories, spec=spec, nshards=nshards, driver=driver)
     out.histories += len(histories)
     out.events += res["events"]
     for h in histories:
@@ -101,7 +101,7 @@ def run_batch(out, label, dictname, histories, spec="Trace_File", nshards=None, 
         if k:
             out.known.append((k, what))
             continue
-        payload = {"property": out.prop, "batch": label, "dict": dictname, "spec": spec,
+        payload = {"property": out.prop, "batch": label, "dict": dictname, "spec": spec, "driver": driver,
                    "failed": [{"tag": x.tag, "rule": x.rule, "op_index": x.oi, "detail": x.detail} for x in mine],
                    "history": hist,
                    "event": {k2: v for k2, v in (ev or {}).items() if k2 not in ("img", "api", "reopen")} if ev else None}
